@@ -23,10 +23,13 @@ DRIVER_OPS = {
     "ck_set": "Cookie.runSetCookie",
     "ck_delete": "Cookie.runDeleteCookie",
     "ck_roundtrip": "Cookie.runRoundtrip",
+    "ck_seq": "Cookie.runSeq",
 }
 THEOREMS = [
     "Baize.Cookie.table_facts",
     "Baize.Cookie.source_pinned",
+    "Baize.Cookie.seq_emits_every_call",
+    "Baize.Cookie.seq_delete_is_expired",
     "Baize.Cookie.quote_ascii",
     "Baize.Cookie.quote_no_separator",
     "Baize.Cookie.quote_strip_stable",
@@ -178,6 +181,23 @@ def impl(line):
                 r.delete_cookie(dec_text(args[3]), path=dec_text(args[4]), domain=dec_text(args[5]) or None,
                                 secure=args[6] == "1", httponly=args[7] == "1", samesite=dec_text(args[8]))
                 return header_text(r)
+
+            return with_clock(tz, now, go)
+        if op == "ck_seq":
+            tz, now = args[1], int(args[2])
+
+            def go():
+                r = BaseResponse()
+                for t in args[3:]:
+                    f = t.split(":")
+                    if f[0] == "s":
+                        r.set_cookie(dec_text(f[1]), dec_text(f[2]), path=dec_text(f[3]))
+                    else:
+                        r.delete_cookie(dec_text(f[1]), path=dec_text(f[2]))
+                hs = r.list_headers(as_bytes=False)
+                if any(k != "set-cookie" for k, _ in hs):
+                    return "mismatch list_headers=%r" % (hs,)
+                return "ok " + ("|".join(enc(v) for _, v in hs) if hs else "-")
 
             return with_clock(tz, now, go)
         if op == "ck_roundtrip":
@@ -359,6 +379,44 @@ def oracle(line, out):
             if not seen:
                 return "deleted cookie carries neither expires nor max-age"
         return None
+    if op == "ck_seq":
+        tz, now = args[1], int(args[2])
+        calls = [t.split(":") for t in args[3:]]
+        calls = [(f[0], dec_text(f[1]), dec_text(f[-1])) for f in calls]      # (kind, name, path)
+        if out.startswith("crash"):
+            if not all(is_token(n) for _, n, _ in calls) or not (MIN_TS <= now <= MAX_TS):
+                return None
+            return "a call sequence of token-named cookies raised %s" % out
+        lines = [] if out[3:] == "-" else [dec_text(x) for x in out[3:].split("|")]
+
+        def expired(attrs):
+            if "max-age" in attrs:
+                try:
+                    if int(attrs["max-age"][0]) <= 0:
+                        return True
+                except ValueError:
+                    pass
+            if "expires" in attrs:
+                got = http_date_seconds(attrs["expires"][0])
+                return got is not None and got <= now
+            return False
+
+        emitted = []      # (name, path, expired?)
+        for text in lines:
+            pair, attrs = split_attrs(text)
+            emitted.append((pair.split("=", 1)[0], (attrs.get("path") or [""])[0], expired(attrs)))
+        for idx, (kind, name, path) in enumerate(calls):
+            if kind != "d" or not is_token(name) or ";" in path:
+                continue
+            mine = [e for e in emitted if e[0] == name and e[1] == path]
+            if not any(e[2] for e in mine):
+                return "delete_cookie(%r, path=%r) (call %d of %d): no expired cookie of that name and path is emitted" % (
+                    name, path, idx + 1, len(calls))
+            later = [c for c in calls[idx + 1:] if c[1] == name and c[2] == path]
+            if not later and not mine[-1][2]:
+                return ("delete_cookie(%r, path=%r) is the last call on that cookie but the last line emitted for it "
+                        "is not expired" % (name, path))
+        return None
     if op == "ck_roundtrip":
         cookies = [tuple(dec_text(x) for x in a.split("=")) for a in args[1:]]
         if not all(latin1(n) and latin1(v) for n, v in cookies):
@@ -391,6 +449,9 @@ def classify(line, out):
         return "cookies/chunks=%s" % min(dec_text(args[1]).count(";") + 1, 4)
     if op in ("ck_set", "ck_delete"):
         return "%s/%s/%s" % (op[3:], "utc" if args[1] == "UTC" else "non-utc", kind)
+    if op == "ck_seq":
+        ks = [t[0] for t in args[3:]]
+        return "seq/n=%d/%s/%s" % (min(len(ks), 4), "del" if "d" in ks else "set-only", kind)
     return "roundtrip/n=%s" % min(len(args) - 1, 4)
 
 
@@ -405,6 +466,8 @@ def nontrivial(line, out):
         return ";" in dec_text(args[1])
     if op in ("ck_set", "ck_delete"):
         return args[1] != "UTC"
+    if op == "ck_seq":
+        return any(t[0] == "d" for t in args[3:]) and len(args) > 4
     return len(args) > 2
 
 
@@ -419,6 +482,13 @@ def describe(line):
                 "secure": args[9], "httponly": args[10], "samesite": dec_text(args[11])}
     if op == "ck_delete":
         return {"op": op, "TZ": args[1], "now": int(args[2]), "name": dec_text(args[3])}
+    if op == "ck_seq":
+        calls = []
+        for t in args[3:]:
+            f = t.split(":")
+            calls.append("set_cookie(%r, %r, path=%r)" % (dec_text(f[1]), dec_text(f[2]), dec_text(f[3])) if f[0] == "s"
+                         else "delete_cookie(%r, path=%r)" % (dec_text(f[1]), dec_text(f[2])))
+        return {"op": op, "TZ": args[1], "now": int(args[2]), "calls on one response": calls}
     return {"op": op, "cookies": [tuple(dec_text(x) for x in a.split("=")) for a in args[1:]]}
 
 
@@ -564,6 +634,22 @@ def cases(rng, tier):
             yield mk_set(tz, now, rand_name(rng), rand_value(rng, 10), max_age=max_age, expires=exp,
                          path=rng.choice(["/", "/", "", "/a b"]), domain=rng.choice(["", "", "example.com"]),
                          secure=rng.randrange(2), httponly=rng.randrange(2), samesite=samesite)
+    # -- call sequences on one response: every sequence of length <= 3 over set/delete of two names and two paths,
+    #    then random longer ones
+    alpha = [("s", "k", "v", "/"), ("s", "k", "w", "/a"), ("s", "j", "v", "/"), ("d", "k", "/"), ("d", "k", "/a"),
+             ("d", "j", "/")]
+
+    def tok(c):
+        return ":".join([c[0]] + [enc(x) for x in c[1:]])
+
+    for n in (1, 2, 3):
+        for cs in itertools.product(alpha, repeat=n):
+            yield "ck_seq UTC 1700000000 " + " ".join(tok(c) for c in cs)
+    for _ in range(6000 if thorough else 600):
+        cs = [rng.choice(alpha) if rng.random() < 0.7 else
+              (("s", rand_name(rng), rand_value(rng, 6), rng.choice(["/", "/a"])) if rng.random() < 0.5
+               else ("d", rand_name(rng), rng.choice(["/", "/a"]))) for _ in range(rng.randrange(1, 8))]
+        yield "ck_seq %s %d %s" % (rng.choice(TZS), rng.randrange(0, 2 * 10 ** 9), " ".join(tok(c) for c in cs))
     # -- several cookies on one response, all sent back in one header
     for c in range(256):
         yield "ck_roundtrip %s=%s" % (enc("k"), enc(chr(c)))
